@@ -352,6 +352,104 @@ func execHandshake(t *testing.T, plan *simkit.Plan) *simkit.Result {
 		if sv.err != nil || !sv.appOK {
 			s.Violate("C34", "reference-peer-rejected", "server", "the server rejected a client sending the documented magic number and the same version: %v", sv.err)
 		}
+		// F. overlapping handshakes in one process (a daemon dialing several
+		// agents at once): one connection whose peer differs in one version field
+		// runs at the same time as two connections whose peers match, all of them
+		// fragmented, the interleaving chosen by the scheduler. Connections are
+		// independent: the mismatching one must fail, the matching ones must be
+		// accepted and become usable.
+		type ovCase struct {
+			name             string
+			fakeSrv, fakeCli func(io.ReadWriteCloser)
+			cl, sv           hsOutcome
+		}
+		runOverlapped := func(cases []*ovCase) bool {
+			var mu sync.Mutex
+			pending := 0
+			var links []*simkit.Link
+			frag := int(c["frag"])
+			if frag == 0 || frag > 2 {
+				frag = 1 + int(c["xor"])%2
+			}
+			for _, oc := range cases {
+				oc := oc
+				caseNo++
+				link := s.NewLink(fmt.Sprintf("h%d", caseNo), simkit.LinkOpts{FragMax: frag, ShortMax: int(c["short"])})
+				links = append(links, link)
+				pending += 2
+				s.Go(fmt.Sprintf("h%d.client", caseNo), func() {
+					if oc.fakeCli != nil {
+						oc.fakeCli(link.A)
+						mu.Lock()
+						oc.cl.done = true
+					} else {
+						err, ok := realClient(link.A)
+						mu.Lock()
+						oc.cl = hsOutcome{true, err, ok, s.Now()}
+					}
+					pending--
+					mu.Unlock()
+				})
+				s.Go(fmt.Sprintf("h%d.server", caseNo), func() {
+					if oc.fakeSrv != nil {
+						oc.fakeSrv(link.B)
+						mu.Lock()
+						oc.sv.done = true
+					} else {
+						err, ok := realServer(link.B)
+						mu.Lock()
+						oc.sv = hsOutcome{true, err, ok, s.Now()}
+					}
+					pending--
+					mu.Unlock()
+				})
+			}
+			s.SetBudget(60000, time.Minute)
+			stop := s.Loop(func() bool { mu.Lock(); defer mu.Unlock(); return pending == 0 })
+			mu.Lock()
+			defer mu.Unlock()
+			if stop != simkit.StopCond {
+				s.Violate("C34", "hang", "overlapped", "overlapped handshakes (%s...) did not finish", cases[0].name)
+				for _, l := range links {
+					l.A.Close()
+					l.B.Close()
+				}
+				return false
+			}
+			return true
+		}
+		for _, pt := range perts[3:] {
+			for _, side := range []string{"fake-server", "fake-client"} {
+				if s.Violated() {
+					return
+				}
+				s.Count("enum.cases", 1)
+				s.Count("probe.overlapped", 1)
+				ver := refVersion(pt.dMaj, pt.dMin, pt.dP)
+				bad := &ovCase{name: "overlap-" + side + "-" + pt.name}
+				if side == "fake-server" {
+					bad.fakeSrv = func(st io.ReadWriteCloser) { fakeServer(st, refServerMagic, ver) }
+				} else {
+					bad.fakeCli = func(st io.ReadWriteCloser) { fakeClient(st, refClientMagic, ver) }
+				}
+				good1, good2 := &ovCase{name: "overlap-good1"}, &ovCase{name: "overlap-good2"}
+				if !runOverlapped([]*ovCase{good1, bad, good2}) {
+					return
+				}
+				s.Logf("handshake", "%s: client err=%v | server err=%v | good %v %v %v %v", bad.name, bad.cl.err != nil, bad.sv.err != nil, good1.cl.appOK, good1.sv.appOK, good2.cl.appOK, good2.sv.appOK)
+				if side == "fake-server" && bad.cl.err == nil {
+					s.Violate("C34", "mismatch-accepted", "overlapped-client:"+pt.name, "with other handshakes under way in the same process, the client accepted a server whose %s differs", pt.name)
+				}
+				if side == "fake-client" && bad.sv.err == nil {
+					s.Violate("C34", "mismatch-accepted", "overlapped-server:"+pt.name, "with other handshakes under way in the same process, the server accepted a client whose %s differs", pt.name)
+				}
+				for _, g := range []*ovCase{good1, good2} {
+					if g.cl.err != nil || g.sv.err != nil || !g.cl.appOK || !g.sv.appOK {
+						s.Violate("C34", "untouched-rejected", "overlapped", "a matching handshake overlapping with %s was not accepted: client err=%v server err=%v usable=%v/%v", bad.name, g.cl.err, g.sv.err, g.cl.appOK, g.sv.appOK)
+					}
+				}
+			}
+		}
 		s.Finish()
 		s.WaitActors(time.Minute)
 	})
